@@ -84,6 +84,183 @@ def loadInto (w : World) (b : Blob) (sp : Spec) (j : Nat) : Option World :=
     else none
   | _ => none
 
+/-! ### the checkpoint table (explicit)
+
+  WHICH parts of an agent's state go into the file and come back, per kind of attribute, the phases of the two load
+  paths and the order in which the wrapper's state is merged — the facts about
+  `get_checkpoint_dict` / `EvolvableAlgorithm.{save_checkpoint, load_checkpoint, load}` /
+  `AgentWrapper.{save_checkpoint, load_checkpoint}` that `save` / `load` / `loadInto` above rely on ("the file
+  holds every attribute by value, every restored cell is `saved`").  `Gen/CkptGen.lean` derives the same tables
+  from the source text; `Proofs/CkptGenEq.lean` proves them equal to the definitions of this section.  The driver
+  protocol does not use this section. -/
+
+/-- what the `isinstance` chain of `get_checkpoint_dict` distinguishes among evolvable attributes -/
+inductive ObjCls
+  | optimizerWrapper | evolvableModule | optimizedModule | moduleList (compiled : Bool) | other
+deriving Repr, DecidableEq
+
+/-- the parts of an attribute's state -/
+inductive Part
+  | cls | init | weights | detached                                          -- a network: class, init_dict, state-dict tensors, tensors no state dict lists
+  | optCls | optState | optNetworks | optLr | optKwargs | optMultiagent      -- an optimizer: what is stored
+  | optParams                                                                -- … the parameters it steps (the rebuilt networks)
+  | value                                                                    -- any other attribute
+deriving Repr, DecidableEq
+
+inductive Cls
+  | evolvable (o : ObjCls)
+  | plain           -- a public non-evolvable attribute (hyper-parameter, list, registry, tensor, …)
+  | subRef          -- … whose value is a reference into one of the agent's own networks
+  | wrapperAttr     -- an attribute of the AgentWrapper object
+deriving Repr, DecidableEq
+
+def Cls.parts : Cls → List Part
+  | .evolvable .optimizerWrapper => [.optCls, .optState, .optNetworks, .optLr, .optKwargs, .optMultiagent, .optParams]
+  | .evolvable _ => [.cls, .init, .weights, .detached]
+  | _ => [.value]
+
+inductive LoadPath
+  | inplace | new | wrapperInplace
+deriving Repr, DecidableEq
+
+/-- what happens to a part over save + load -/
+inductive Fate
+  | saved     -- written to the file by value and restored from that very entry
+  | kept      -- not taken from the file: what the receiver / the constructor has there stays
+  | lost      -- neither (cannot be saved, or restored from something else)
+deriving Repr, DecidableEq
+
+/-- THE TABLE: every part of every evolvable attribute and every plain attribute is `saved` on every path; a
+    reference into the agent's own networks stays live; wrapper attributes come back on the wrapper's paths -/
+def fate (p : LoadPath) (c : Cls) (q : Part) : Fate :=
+  if q ∈ c.parts then
+    match c with
+    | .evolvable .other => .lost            -- `get_checkpoint_dict` raises TypeError
+    | .evolvable _ => .saved
+    | .plain => .saved
+    | .subRef => .kept
+    | .wrapperAttr => if p = .inplace then .kept else .saved
+  else .lost
+
+/-- a member of the agent object as `inspect_attributes` sees it -/
+structure Member where
+  routine : Bool
+  startsUnderscore : Bool
+  endsUnderscore : Bool
+  evolvable : Bool
+  tensorDict : Bool
+  ctorParam : Bool
+deriving Repr, DecidableEq
+
+inductive MemberName
+  | generic | accelerator | lrScheduler | networkInfo | agilerlVersion
+deriving Repr, DecidableEq
+
+inductive AKind
+  | evolvable (o : ObjCls)
+  | member (name : MemberName) (a : Member)
+deriving Repr, DecidableEq
+
+inductive Saved
+  | byValue (parts : List Part) | notSaved | stateDictIfNotNone | shadowed | error (cls : String)
+deriving Repr, DecidableEq
+
+/-- `inspect_attributes`: public, not a routine, not evolvable, not a TensorDict (and a constructor argument) -/
+def inspectKeep (inputArgsOnly : Bool) (a : Member) : Bool :=
+  !a.routine && !a.startsUnderscore && !a.endsUnderscore && !a.evolvable && !a.tensorDict &&
+    (!inputArgsOnly || a.ctorParam)
+
+/-- THE RULE TABLE OF SAVING -/
+def ckptRule : AKind → Saved
+  | .evolvable .optimizerWrapper => .byValue [.optCls, .optState, .optNetworks, .optLr, .optKwargs, .optMultiagent]
+  | .evolvable .other => .error "TypeError"
+  | .evolvable _ => .byValue [.cls, .init, .weights, .detached]
+  | .member n a =>
+    if !inspectKeep false a then .notSaved
+    else
+      match n with
+      | .generic => .byValue [.value]
+      | .accelerator => .notSaved
+      | .lrScheduler => .stateDictIfNotNone
+      | _ => .shadowed
+
+/-- the attribute kinds of the heap model (`Heap.Kind`, the groups the walker measures) as checkpoint kinds -/
+def akindOf : Heap.Kind → AKind
+  | .network => .evolvable .evolvableModule
+  | .target _ => .evolvable .evolvableModule
+  | .optimizer => .evolvable .optimizerWrapper
+  | _ => .member .generic ⟨false, false, false, false, false, false⟩
+
+def clsOf : Heap.Kind → Cls
+  | .network => .evolvable .evolvableModule
+  | .target _ => .evolvable .evolvableModule
+  | .optimizer => .evolvable .optimizerWrapper
+  | _ => .plain
+
+inductive Phase
+  | readFile | buildNetworks | setNetworks | hook | loadWeights | loadDetached
+  | buildOptimizers | loadOptState | setOptimizers | setAttributes
+  | newAgent | setKey (k : String) | ckptSet (k : String) | ckptPop (k : String)
+  | check (cls : String) | selfCall (m : String) | agentLoad | buildWrapper | setWrapperAttrs
+  | other (what : String)
+deriving Repr, DecidableEq
+
+/-- `load_checkpoint`: networks are re-created from the saved init dicts and bound, THEN the hooks run, THEN the
+    weights and the tensors no state dict lists are written, then the optimizers are rebuilt on the new networks
+    and their state loaded, then the registry is checked and the remaining attributes are set -/
+def loadCheckpointPhases : List Phase :=
+  [.readFile, .buildNetworks, .setNetworks, .hook, .loadWeights, .loadDetached, .buildOptimizers, .loadOptState,
+   .setOptimizers, .check "ValueError", .ckptPop "network_info", .setAttributes, .selfCall "wrap_models",
+   .selfCall "recompile"]
+
+/-- `load`: the same restore steps around the construction of the new agent -/
+def loadPhases : List Phase :=
+  [.readFile, .check "ValueError", .check "ValueError", .buildNetworks, .ckptSet "accelerator", .ckptSet "device",
+   .newAgent, .setKey "registry", .setNetworks, .hook, .loadWeights, .loadDetached, .buildOptimizers, .loadOptState,
+   .setNetworks, .setOptimizers, .setAttributes, .selfCall "wrap_models", .selfCall "recompile", .buildWrapper,
+   .setWrapperAttrs]
+
+/-- `AgentWrapper.load_checkpoint`: the agent first, the wrapper's attributes afterwards -/
+def wrapperLoadCheckpointPhases : List Phase := [.readFile, .agentLoad, .setWrapperAttrs]
+
+/-- what the file of a wrapped agent holds under a key -/
+inductive WSource
+  | wrapperClass | wrapperCtorArgs | wrapperAttrs   -- the wrapper's own state (the entry `agent` removed)
+  | agentEntry                                      -- the entry of the inner agent's checkpoint dict
+  | absent
+deriving Repr, DecidableEq
+
+/-- WRAPPER MERGE ORDER: the wrapper's keys are written AFTER the agent's dict, so they win even when the inner
+    agent has attributes of the same names (`agentHas`; an earlier `load_checkpoint` leaves them there) -/
+def wrapperFile (agentHas : Bool) (k : String) : WSource :=
+  if k = "wrapper_cls" then .wrapperClass
+  else if k = "wrapper_init_dict" then .wrapperCtorArgs
+  else if k = "wrapper_attrs" then .wrapperAttrs
+  else if k = "learn" ∨ k = "get_action" then .absent
+  else if agentHas then .agentEntry else .absent
+
+/-- per attribute group: its class and the part each of its cells belongs to -/
+abbrev Layout := List (Cls × List Part)
+
+/-- the exceptions to "every cell is restored from the file" that a fate table implies -/
+def specOf (f : Cls → Part → Fate) (junk : Nat → Nat → Nat) (lay : Layout) : Spec :=
+  (lay.mapIdx fun k cp =>
+    (cp.2.mapIdx fun c q => if f cp.1 q = .saved then [] else [((k, c), Fill.init (junk k c))]).flatten).flatten
+
+/-- `load` / `loadInto` driven by a fate table -/
+def loadBy (f : Cls → Part → Fate) (junk : Nat → Nat → Nat) (lay : Layout) (w : World) (b : Blob) : World :=
+  load w b (specOf f junk lay)
+
+def loadIntoBy (f : Cls → Part → Fate) (junk : Nat → Nat → Nat) (lay : Layout) (w : World) (b : Blob) (j : Nat) :
+    Option World :=
+  loadInto w b (specOf f junk lay) j
+
+/-- the layout holds only attributes that own cells and can be saved: every part is a part of its class, no
+    references into other attributes, nothing `get_checkpoint_dict` rejects; wrapper attributes only on the paths that go through the wrapper -/
+def Layout.Savable (p : LoadPath) (lay : Layout) : Prop :=
+  ∀ cp ∈ lay, cp.1 ≠ .subRef ∧ (cp.1 = .wrapperAttr → p ≠ .inplace) ∧ cp.1 ≠ .evolvable .other ∧
+    ∀ q ∈ cp.2, q ∈ cp.1.parts
+
 /-! ### line protocol (token `ckpt`, state shared with token `heap`) -/
 
 /-- `k.c=i<v>` | `k.c=f<k'>.<c'>` -/
